@@ -6,7 +6,26 @@ for f in MANIFEST.json known_findings.json lean/Driver.lean lean/DateutilVerif.l
 done
 # evidence files are rewritten by every run: take the incoming version on conflict
 for f in $(git diff --name-only --diff-filter=U -- evidence 2>/dev/null); do git checkout --theirs -- "$f" 2>/dev/null && git add "$f"; done
+# the list of repaired defects is appended to by every branch: take the union (ours first, then their new lines)
+if git diff --name-only --diff-filter=U | grep -q '^known_findings.d/00-fixed.json$'; then
+  python3 - <<'PYEOF'
+import json, subprocess
+def stage(n):
+    return json.loads(subprocess.run(["git", "show", ":%d:known_findings.d/00-fixed.json" % n], capture_output=True, text=True, check=True).stdout)
+ours, theirs = stage(2), stage(3)
+out = dict(ours)
+out["fixed"] = ours["fixed"] + [x for x in theirs["fixed"] if x not in ours["fixed"]]
+json.dump(out, open("known_findings.d/00-fixed.json", "w"), indent=1, ensure_ascii=False)
+open("known_findings.d/00-fixed.json", "a").write("\n")
+PYEOF
+  git add known_findings.d/00-fixed.json
+fi
+# generated documents: take ours, they are rewritten below / by the integrator
+for f in STATUS.md COVERAGE.md DESIGN.md harness/fingerprints.json; do
+  if git diff --name-only --diff-filter=U | grep -q "^$f\$"; then git checkout --ours -- "$f" && git add "$f"; fi
+done
 python3 tools/gen_manifest.py
+python3 tools/gen_status.py >/dev/null 2>&1; git add STATUS.md DESIGN.md 2>/dev/null
 git add MANIFEST.json known_findings.json lean/Driver.lean lean/DateutilVerif.lean
 # anything still unmerged is a real conflict: say so loudly (do not commit over it)
 LEFT=$(git diff --name-only --diff-filter=U)
